@@ -5,13 +5,13 @@ CONFIG = {
     "passes": [
         {"name": "schedules", "pkg": "c14", "bin": "c14", "driver": "drv_c14", "timeout": 1500},
         {"name": "race", "pkg": "c14", "bin": "c14race", "driver": "drv_c14", "build_flags": ["-race"], "args": ["-raceonly"],
-         "thorough_only": True, "timeout": 900, "replayable": False},
+         "timeout": 900, "replayable": False},
     ],
     "trusted_base": [
         "atomicity of each modelled step: flock(2), lseek(2), write(2) are single syscalls; lockFD/unlockFD are mutex-protected sections",
         "the verif hook points (append.afterOpen/afterLock/afterSeek/afterWrite) are where the schedule controller preempts",
-        "data-race freedom of the lock table is a Go-memory-model property: judged by the race detector in the thorough tier only (partial)",
+        "data-race freedom of the lock table is a Go-memory-model property: judged by the race detector (a -race build of the stress pass, in both tiers), not by a theorem (partial)",
     ],
-    "modelled": ["cmsys.AppendRecord", "cmsys.GoFlock/GoFunlock", "cmsys.lockFD/unlockFD"],
-    "assumptions": ["flock/lseek/write do not fail; file length is a multiple of the record size"],
+    "modelled": ["cmsys.AppendRecord incl. its error returns under the lock", "cmsys.GoFlock/GoFlockExNb/GoFunlock incl. the refused-lock path", "cmsys.lockFD/unlockFD", "lock discipline of DeleteRecord/SubstituteRecord/doAddRecommendSmartMerge (regenerated facts)"],
+    "assumptions": ["file length is a multiple of the record size; a failed write adds no whole record"],
 }
